@@ -4,6 +4,8 @@ import glob, json, os, re
 V = os.path.dirname(os.path.dirname(os.path.abspath(__file__)))
 rows = ["| change | property | what it does / what it needs | caught by (quick tier) | first violation key |", "|---|---|---|---|---|"]
 for d in sorted(glob.glob(os.path.join(V, "seeded", "*"))):
+    if not os.path.exists(os.path.join(d, "meta.json")):
+        continue
     m = json.load(open(os.path.join(d, "meta.json")))
     cb = [c for c in m.get("caught_by", []) if isinstance(c, dict)]
     caught = ", ".join("%s%s" % (c["check"], "" if c["caught"] else " (missed)") for c in cb) or "not run yet"
